@@ -61,7 +61,7 @@ def main():
             "name": "pdsmon",
             "path": "/verif/harness",
             "serves_properties": sorted(LEVEL.keys()),
-            "kind_free_text": "Rust monitor binary (profiles monrel = release + overflow checks, mondbg = debug assertions on): workload generators, reference models, history/statistical oracles, counting allocator; valgrind massif cross-check for C11",
+            "kind_free_text": "Rust monitor binary (profiles monrel = release + overflow checks, mondbg = debug assertions on, monfast = plain release where overflow wraps; the latter two as reduced sub-runs): workload generators, reference models, history/statistical oracles, counting allocator; valgrind massif cross-check for C11",
         }],
         "checks": checks,
         "not_applicable": [],
